@@ -5,9 +5,12 @@ set -e
 n=$1; shift
 cd /verif
 git merge --no-edit wip-$n || {
+  # evidence files and the generated manifest are rewritten after the merge anyway: take the branch's side
+  for f in $(git diff --name-only --diff-filter=U | grep -E '^evidence/|^MANIFEST.json$|^seeded/README.md$' || true); do git checkout --theirs -- $f; git add $f; done
   others=$(git diff --name-only --diff-filter=U | grep -v '^KNOWN_FINDINGS.txt$' || true)
   if [ -n "$others" ]; then echo "MERGE CONFLICT in: $others  (resolve by hand, then commit)"; exit 1; fi
-  sed -i '/^<<<<<<< /d; /^=======$/d; /^>>>>>>> /d' KNOWN_FINDINGS.txt; git add -A; git commit -qm "Merge wip-$n"; }
+  if git diff --name-only --diff-filter=U | grep -q '^KNOWN_FINDINGS.txt$'; then sed -i '/^<<<<<<< /d; /^=======$/d; /^>>>>>>> /d' KNOWN_FINDINGS.txt; fi
+  git add -u; git commit -qm "Merge wip-$n"; }
 base=$(git -C /repo merge-base main fix-$n)
 commits=$(git -C /repo rev-list --reverse $base..fix-$n)
 for c in $commits; do
